@@ -129,9 +129,15 @@ func (w *World) finish() {
 			}
 			for i := 0; i < 2000; i++ {
 				handled := false
+				nd.curEvent = nil
 				w.guard(nd, "drain", func() { handled = nd.el.Tick(w.ctx) })
 				if !handled || nd.crashed {
 					nd.drained = !nd.crashed
+					break
+				}
+				w.step++
+				w.afterStep(nd)
+				if w.viol != nil {
 					break
 				}
 			}
